@@ -251,6 +251,19 @@ def run(chk):
         if real[0] != "ok" or sum(real[1]) != want_pairs:
             chk.violation("C05|pcDelta|maxseqs-two|pair-count", f"pcDelta(seqs ({n1}), seqs2 ({n2}), maxseqs={m}) counts {real} cross pairs in total, "
                           f"expected min({n1},{m}) * min({n2},{m}) = {want_pairs}", {"xs": xs, "ys": ys, "m": m, "real": str(real)})
+    # the paired-chain TUPLE form (alphas, betas) with maxseqs: the sub-sample is of ROWS (pairs), min(N, maxseqs) of them
+    for _ in range(6 if not thorough else 40):
+        n1 = rng.choice([6, 9, 10])
+        al = gen.sub_collection(rng, pool[:20], n1)
+        be = gen.sub_collection(rng, pool[:20], n1)
+        m = rng.choice([2, 3, 4])
+        np.random.seed(rng.randrange(2 ** 31))
+        real = core.call_real(lambda: [int(v) for v in ds.pcDelta((al, be), bins=list(range(0, 30)), normalize=False, maxseqs=m)])
+        chk.case(nontrivial_key=("maxseqs-tuple", tuple(al), tuple(be), m))
+        chk.count("pcDelta:maxseqs-tuple-form")
+        if real[0] != "ok" or sum(real[1]) != m * (m - 1) // 2:
+            chk.violation("C05|pcDelta|maxseqs-tuple|pair-count", f"pcDelta((alphas, betas) of {n1} pairs, maxseqs={m}) counts {real} pairs in total, "
+                          f"expected {m}*({m}-1)/2 = {m * (m - 1) // 2}", {"alphas": al, "betas": be, "m": m, "real": str(real)})
     # ---- background table bins
     # history: editing the returned bins must not change what a later call returns
     first = core.call_real(lambda: ds.load_pcDelta_background())
